@@ -111,11 +111,14 @@ def nfa_find_epsilon_path(N: NFA, R: Set[State], f: State) -> Optional[List[Stat
     visited: Set[State] = set([r for r in R])
     todo: Set[State] = set([r for r in R])
     while len(todo) > 0:
+        if _verif.ON: _rest = _verif.force('path.pop', todo)
         src = todo.pop()
+        if _verif.ON: _verif.restore(todo, _rest)
         if _verif.ON: _verif.emit('path.pop', src=src)
         for (p, a), Q1 in delta.items():
             if p != src or a != epsilon:
                 continue
+            if _verif.ON: Q1 = _verif.ordered('path.edge', Q1)
             for q in Q1:
                 target = q
                 if _verif.ON: _verif.emit('path.edge', src=src, target=target)
